@@ -186,7 +186,7 @@ def run(ctx):
         mod = s2.diseases.sis
         for punit in ('day', 'year', 'week'):
             seed = rng.randrange(1, 10**6)
-            for fam, mkd in (('normal', lambda w: ss.normal(loc=w(10), scale=w(2))), ('lognorm_ex', lambda w: ss.lognorm_ex(mean=w(10), std=w(2))), ('uniform', lambda w: ss.uniform(low=w(2), high=w(9))), ('expon', lambda w: ss.expon(scale=w(5)))):
+            for fam, mkd in (('normal', lambda w: ss.normal(loc=w(10), scale=w(2))), ('lognorm_ex', lambda w: ss.lognorm_ex(mean=w(10), std=w(2))), ('uniform', lambda w: ss.uniform(low=w(2), high=w(9))), ('expon', lambda w: ss.expon(scale=w(5))), ('constant (integer value)', lambda w: ss.constant(v=w(10))), ('constant', lambda w: ss.constant(v=w(2.5)))):
                 try:
                     dt_ = mkd(lambda v: ss.dur(v, punit))
                     for pv in dt_.pars.values():
